@@ -54,7 +54,7 @@ def plan(tier, seed):
     specs = []
     for s in range(16 if tier == 'thorough' else 10):
         specs.append(dict(kind='random', seed=seed * 1000 + s, cfgs=cfgs,
-                          examples=1500 if tier == 'thorough' else 250,
+                          examples=1500 if tier == 'thorough' else 400,
                           min_len=6, max_len=40))
     specs += H.exhaustive_plan(dict(kind='bdd', nmax=4, init_vars=3),
                                LETTERS, 5 if tier == 'thorough' else 4, seed)
